@@ -19,3 +19,21 @@ Print Assumptions C01_compose_roundtrip.
 (* release / base product / variant forest: decided by the roundtrip_ci correspondence and the implementation-side
    oracle (every documented field, parent/child structure, paths, byte-identical second write). The Coq statement
    over whole forests - load_ci (dump_ci x) = Ok (norm x) by induction on the variant tree - is not yet proved (partial). *)
+
+(* the release and base-product sections *)
+From PM Require Import Proofs.ReleaseRoundtrip Model.ComposeInfo.
+Theorem C01_release_roundtrip :
+  forall name version short ty lay internal sec j kv,
+  let r := mk_release name version short ty lay internal in
+  ser_release release_cls (F"release") r = Ok (sec, j) -> dget (PDict kv) (F"release") = Ok j ->
+  deser_release VERSION (PDict kv) = Ok r.
+Proof. exact release_roundtrip. Qed.
+Print Assumptions C01_release_roundtrip.
+
+Theorem C01_base_product_roundtrip :
+  forall name version short ty sec j kv,
+  let b := mk_base_product name version short ty in
+  ser_release bp_cls (F"base_product") b = Ok (sec, j) -> dget (PDict kv) (F"base_product") = Ok j ->
+  deser_base_product (PDict kv) = Ok b.
+Proof. exact base_product_roundtrip. Qed.
+Print Assumptions C01_base_product_roundtrip.
